@@ -134,7 +134,11 @@ func discharge(obls []*Obligation, dir string, timeoutS int, workers int, confir
 			defer wg.Done()
 			defer func() { <-sem }()
 			file := o.File
-			res := runSolvers(file, timeoutS, solvers)
+			tmo := timeoutS
+			if o.Cover && tmo > 4 {
+				tmo = 4 // reachability covers are a vacuity guard, not a proof obligation
+			}
+			res := runSolvers(file, tmo, solvers)
 			o.Status, o.Solver, o.Seconds = res.status, res.solver, res.seconds
 			if res.status == "sat" {
 				o.Model = res.output
